@@ -25,8 +25,14 @@ Definition code (c : case) : N :=
       let o := bep3b m d && presult_eqb p (PFrame m (len d)) in
       (if k then 0 else 1) + (if o then 0 else 2)
   | CParse buf p =>
-      (* no independent oracle for arbitrary buffers here (C06 has one) *)
-      if presult_eqb (parse_frame buf) p then 0 else 1
+      (* whatever the buffer holds: a frame the implementation reports must be the BEP3 reading of exactly the bytes
+         it says it consumed (C06 has the oracle for what must be reported) *)
+      let k := presult_eqb (parse_frame buf) p in
+      let o := match p with
+               | PFrame m n => (n <=? len buf) && bep3b m (firstn (N.to_nat n) buf)
+               | _ => true
+               end in
+      (if k then 0 else 1) + (if o then 0 else 2)
   | CToVec n bs r v =>
       let k := opt_bools_eqb (to_vec bs n) r && Bool.eqb (bitfield_validate bs n) v in
       let o := match r with
